@@ -551,7 +551,13 @@ class Parser:
             ) from err
 
     def parse_float_literal(self, stream: TokenStream) -> FilterExpression:
-        return FloatLiteral(value=float(stream.current.value))
+        value = float(stream.current.value)
+        if value in (float("inf"), float("-inf")):
+            raise JSONPathSyntaxError(
+                f"number literal out of range {stream.current.value!r}",
+                token=stream.current,
+            )
+        return FloatLiteral(value=value)
 
     def parse_prefix_expression(self, stream: TokenStream) -> FilterExpression:
         tok = stream.next_token()
